@@ -368,6 +368,38 @@ def program_files(main: Schema, rng: Optional[random.Random] = None) -> Dict[str
     return {f"{f.base()}.bitproto": schema_text(f, rng) for f in main.all_files()}
 
 
+def fit_sizes(defs: List[Any], limit: int = 65535) -> None:
+    """shrink array capacities (largest first) until every message fits the 65535-bit limit again; deterministic"""
+
+    def msgs_of(ds):
+        for d in ds:
+            if isinstance(d, MsgDef):
+                yield from msgs_of(d.nested)
+                yield d
+
+    def shrink(t) -> bool:
+        # the outermost array of a field type; arrays behind an alias are shrunk through the alias
+        if isinstance(t, TArray) and t.cap > 1:
+            t.cap = max(1, t.cap // 2)
+            return True
+        if isinstance(t, TRef) and isinstance(t.d, AliasDef):
+            return shrink(t.d.type)
+        return False
+
+    for _ in range(64):
+        changed = False
+        for m in msgs_of(defs):
+            guard = 0
+            while msg_nbits(m) > limit and guard < 64:
+                guard += 1
+                fs = sorted(m.fields, key=lambda f: -nbits(f.type))
+                if not any(shrink(f.type) for f in fs[:1]) and not any(shrink(f.type) for f in fs):
+                    m.fields.remove(fs[0])
+                changed = True
+        if not changed:
+            return
+
+
 # ---------------------------------------------------------------- generator
 @dataclass
 class GenOpts:
@@ -568,6 +600,7 @@ class SchemaGen:
             self.all_named.append(d)
         if r.random() < self.o.twin_scopes:
             self.add_twins()
+            fit_sizes(self.defs)  # the twins were added to messages that may already be elements of large arrays
         return Schema(self.fresh("p").lower(), self.defs)
 
     def add_twins(self) -> None:
